@@ -90,7 +90,8 @@ def copy_note_across(rng, files):
     if not cands:
         return files
     out = dict(files)
-    out[b] = files[b].rstrip("\n") + "\n\n" + rng.choice(cands) + " (copied)\n"
+    # (half of the copies are exact: two indexed notes with the same ZID and the same text are still two notes)
+    out[b] = files[b].rstrip("\n") + "\n\n" + rng.choice(cands) + (" (copied)" if rng.random() < 0.5 else "") + "\n"
     return out
 
 
